@@ -34,6 +34,7 @@ class Oracle:
         self.pending = set()
         self.awaiting = False          # an indication was sent and is not yet confirmed
         self.wait = {}                 # request -> [others served at its level while eligible, own-char?]
+        self.passed = {}               # indication -> indications of its level dequeued since it was queued
 
     def eligible(self, r):
         return r[1] == "n" or not self.awaiting
@@ -50,6 +51,7 @@ class Oracle:
             if i < self.total and (i, k) not in self.pending:
                 self.pending.add((i, k))
                 self.wait[(i, k)] = [0, False]
+                self.passed[(i, k)] = 0
         elif w[0] == "deq":
             if out == "e":
                 el = sorted(r for r in self.pending if self.eligible(r))
@@ -82,8 +84,19 @@ class Oracle:
                                    % (x[0], self.wait[x][0], self.cfg[lv]))
                         else:
                             hit = ("%s:unfair" % pid, "request %s waited for %d other requests of its %d-entry level" % (x, self.wait[x][0], self.cfg[lv]))
+            # bounded response (Lean: bounded_response / overtake_of_indication): without an overtaking
+            # dequeue at most size-1 requests of its level are served before a pending indication; only
+            # the indications are counted here (notifications may continue while a confirmation is awaited)
+            for x in sorted(self.pending):
+                if r[1] == "i" and x != r and x[1] == "i" and self.level[x[0]] == lv:
+                    self.passed[x] = self.passed.get(x, 0) + 1
+                    if self.passed[x] > self.cfg[lv] - 1 and hit is None:
+                        hit = ("%s:indication-overtaken-while-unconfirmed" % pid,
+                               "indication %d is still pending after %d other indications of its %d-entry level were dequeued: the cursor skipped it while a confirmation was outstanding"
+                               % (x[0], self.passed[x], self.cfg[lv]))
             self.pending.discard(r)
             self.wait.pop(r, None)
+            self.passed.pop(r, None)
             if r[1] == "i":
                 self.awaiting = True
                 for x in self.pending:
@@ -102,7 +115,7 @@ class Oracle:
             elif out != "011e000004":
                 return ("%s:bad-length-confirmation-not-rejected" % pid, "`%s` answered %s instead of Error Response 0x04" % (op, out))
         elif w[0] == "clear":
-            self.pending, self.awaiting, self.wait = set(), False, {}
+            self.pending, self.awaiting, self.wait, self.passed = set(), False, {}, {}
         return None
 
 
@@ -161,7 +174,7 @@ def monitor(ops, outs, pid):
         if h and h[0] not in seen:
             seen.add(h[0])
             hits.append((k, h[0], h[1]))
-            if "waits-behind-own" not in h[0]:
+            if "waits-behind-own" not in h[0] and "indication-overtaken" not in h[0]:
                 break                  # the oracle's state is no longer meaningful
     return hits, o
 
@@ -214,7 +227,7 @@ def run_queue(ctx, pid, want_keys):
 
 C12_KEYS = ("not-a-set", "pending-notification-not-dequeued", "dequeued-not-pending", "priority-inversion", "unfair",
             "notification-waits-behind-own-indication", "bad-output", "crash")
-C11_KEYS = ("bad-length-confirmation-not-rejected", "confirmation-answered", "second-indication-before-confirmation", "pending-notification-not-dequeued", "pending-indication-not-dequeued",
+C11_KEYS = ("indication-overtaken-while-unconfirmed", "bad-length-confirmation-not-rejected", "confirmation-answered", "second-indication-before-confirmation", "pending-notification-not-dequeued", "pending-indication-not-dequeued",
             "never-transmitted", "dequeued-not-pending", "crash")
 
 RULE = ("sessions = reset <partition> ([1] [2] [5] [1,1] [1,3] [3,1] [4,4,1] [1,2]) + random queue_notification / queue_indication "
@@ -275,7 +288,7 @@ def c13_monitor(ops, outs):
             continue
         if w[0] != "irq":
             h = o.step(op, out, "C13")
-            if h is not None and "waits-behind-own" not in h[0]:      # fairness is C12's business
+            if h is not None and "waits-behind-own" not in h[0] and "indication-overtaken" not in h[0]:      # fairness is C12's / C11's business
                 hits.append((k, "C13:sequential-misbehaviour", "op `%s` answered %s: %s" % (op, out, h[1])))
                 break
             continue
@@ -355,6 +368,28 @@ def run_c13(ctx, replay_path=None):
         for k, key, what in c13_monitor([o.replace("irqatomic", "irq") for o in ops], r["out"]):
             bad += 1
     res.extra["model_atomic_rmw_outcomes_with_loss"] = bad
+    # finest granularity (Lean: fine_linearizable / fine_no_loss): producer = load + atomic RMW, consumer = loads +
+    # atomic RMW, ALL schedules k1 <= k2; model only.  Must show no loss; the only anomaly allowed is the proved
+    # stale answer (p0 although the request ends up queued again -> the set oracle calls it delivered twice);
+    # the diagonal k1 = k2 must reproduce the outcomes of the interrupt model with atomic RMW.
+    fsess = [[op.replace("irq ", "irqfine ") for op in ops if not op.startswith("raw")] for ops in sessions]
+    dsess = [[op.replace("irq ", "irqfinediag ") for op in ops if not op.startswith("raw")] for ops in sessions]
+    fres, dres = ctx.run_model(fsess), ctx.run_model(dsess)
+    lost = stale = other = total = 0
+    for ops, r in zip(fsess, fres):
+        for k, key, what in c13_monitor([o.replace("irqfine", "irq") for o in ops], r["out"]):
+            if "lost" in key:
+                lost += 1
+            elif key == "C13:duplicated-request" and re.search(r"outcome p0:", what):
+                stale += 1
+            else:
+                other += 1
+        total += sum(len(o.split()) for op, o in zip(ops, r["out"]) if op.startswith("irqfine"))
+    diag_ok = all(a["out"] == d["out"] for a, d in zip(mres, dres))
+    res.extra["model_fine_granularity_all_schedules"] = dict(outcomes=total, with_loss=lost, stale_answer_outcomes=stale,
+                                                             other_anomalies=other, diagonal_equals_interrupt_model=diag_ok)
+    if lost or other or not diag_ok:
+        res.failures.append({"key": "C13:model-mismatch:fine-granularity", "what": "fine-granularity model: lost=%d other=%d diagonal_equals_interrupt_model=%s (contradicts fine_no_loss / the interrupt model)" % (lost, other, diag_ok), "ops": fsess[0]})
     # two real threads (second core): reported, never decides
     st = ctx.run_impl([["reset 1", "stress %d" % (2000000 if ctx.thorough else 300000)]], key="o0")[0]["out"]
     res.extra["two_thread_stress_nondeterministic"] = st[-1] if st else "n/a"
@@ -368,10 +403,12 @@ PROPS = {
     "C12": dict(
         theorems=[N + "queue_refines_set", N + "single_level_same_as_generic", N + "never_out_of_bounds", N + "reachable_wf",
                   N + "newly_queued_iff_not_pending", N + "dequeue_exactly_once_in_priority_order",
-                  N + "dequeue_empty_only_if_nothing_sendable", N + "round_robin_partial"],
+                  N + "dequeue_empty_only_if_nothing_sendable", N + "round_robin_partial",
+                  N + "pending_until_dequeued", N + "pending_until_dequeued_reachable", N + "bounded_response",
+                  N + "response_bound", N + "notification_bounded_response", N + "overtake_of_notification"],
         witnesses=[N + "round_robin_witness", N + "starvation_witness"],
         technique="Lean 4 refinement proof (byte/bit level model of notification_queue refines a set-of-pending-requests specification for every priority partition and history) + differential correspondence with the real notification_queue<>",
-        level_text="queue_refines_set: for every priority partition and every history the model of the C++ code (2 bits per characteristic in a byte array, round-robin cursor, single-entry specialisation, priority chain) answers exactly like a set of pending (characteristic, kind) requests; newly-queued/exactly-once/priority theorems are read off that specification. Fairness holds per characteristic (round_robin_partial); the full per-request statement is false (round_robin_witness: a notification waits behind the indication of its own characteristic), listed as known finding.",
+        level_text="queue_refines_set: for every priority partition and every history the model of the C++ code (2 bits per characteristic in a byte array, round-robin cursor, single-entry specialisation, priority chain) answers exactly like a set of pending (characteristic, kind) requests; newly-queued/exactly-once/priority theorems are read off that specification. Fairness holds per characteristic (round_robin_partial); the full per-request statement is false (round_robin_witness: a notification waits behind the indication of its own characteristic), listed as known finding. Over whole histories: pending_until_dequeued (never silently dropped) and notification_bounded_response (a pending notification is dequeued within waitLv <= 2*(characteristics of higher levels) + (size of its level) dequeues in every history that does not clear, does not queue on a higher level and has no overtaking dequeue); overtake_of_notification shows that the only overtaking dequeue of a notification is the known finding (the sendable indication of the same characteristic).",
         level_note="Trusted: Lean kernel; the model equals the code as far as the differential check (random + small-scope exhaustive histories on 8 partitions) samples it.",
         assumptions=["all priority levels hold at least one characteristic (Size >= 1)"],
         run=run_c12,
@@ -382,11 +419,14 @@ PROPS = {
     "C11": dict(
         theorems=[N + "one_outstanding", N + "notifications_continue", N + "indication_progress_partial",
                   N + "dequeue_exactly_once_in_priority_order", N + "queue_refines_set",
-                  N + "bad_length_confirmation_rejected", N + "good_confirmation_confirms"],
-        witnesses=[],
+                  N + "bad_length_confirmation_rejected", N + "good_confirmation_confirms",
+                  N + "pending_until_dequeued", N + "pending_until_dequeued_reachable", N + "bounded_response",
+                  N + "response_bound", N + "indication_bounded_response", N + "overtake_of_indication",
+                  N + "confirmed_dequeue_never_overtakes"],
+        witnesses=[N + "indication_starvation_witness"],
         technique="Lean 4 invariant proof over all histories (trace predicate one_outstanding) on the refinement of C12 + differential correspondence",
-        level_text="one_outstanding: in the output trace of every history on every partition no indication is dequeued between an indication and the next confirmation/clear; notifications_continue; indication_progress_partial (one conf;deq round always dequeues when an indication is pending; the counting argument to 'eventually' is checked by the drain phase of every session, not proved). The wrong-length confirmation clause lives in server.hpp and is covered by the C10 component (attnotify).",
-        level_note="partial: bounded-response counting step and handle_value_confirmation length check are validated by the harness only.",
+        level_text="one_outstanding: in the output trace of every history on every partition no indication is dequeued between an indication and the next confirmation/clear; notifications_continue; pending_until_dequeued (a pending request stays pending until it is dequeued, every history without clear, every partition); indication_bounded_response: in every reachable state a pending indication of characteristic g is dequeued before the boundLv-th dequeue executed with no confirmation outstanding has completed (boundLv = 2*(characteristics of higher priority levels) + size of its level; exact measure waitLv = pending requests above + scan distance + 1), for every history that does not clear, does not queue on a higher priority level and contains no overtaking dequeue; overtake_of_indication: an overtaking dequeue only exists while a confirmation is outstanding and returns a notification of the same level (confirmed_dequeue_never_overtakes). Without that hypothesis the statement is false: indication_starvation_witness (known finding C11:indication-overtaken-while-unconfirmed). bad_length_confirmation_rejected / good_confirmation_confirms: model of server::handle_value_confirmation, tied to the real server by confpdu ops.",
+        level_note="bounded response is proved on the specification and transferred to the implementation model by queue_refines_set; the excluded histories are exactly those with an overtaking dequeue (new known finding) or with requests on a higher priority level (by design).",
         run=run_c11,
         harness_keys=["default"],
         level="proof",
@@ -394,14 +434,16 @@ PROPS = {
     ),
     "C13": dict(
         imports=["BluetoeModel.NotifQueue.IrqProps"],
-        theorems=[N + "no_loss_if_atomic_producer_first", N + "no_loss_if_atomic_consumer_first"],
-        witnesses=[N + "lost_update_witness", N + "lost_update_witness_single", N + "witness_only_in_rmw"],
+        theorems=[N + "no_loss_if_atomic_producer_first", N + "no_loss_if_atomic_consumer_first",
+                  N + "fine_linearizable", N + "fine_no_loss", N + "fchain_spec", N + "fscan_snapshot"],
+        witnesses=[N + "lost_update_witness", N + "lost_update_witness_single", N + "witness_only_in_rmw",
+                   N + "stale_result_witness"],
         run=run_c13,
         harness_keys=["o0"],
         level="proof",
         technique="Lean 4 small-step interleaving model (consumer dequeue at memory-access granularity, producer as interrupt): negation of the property proved by a concrete schedule; no-loss proved for mutually exclusive calls; tied to the real code by instruction-level interrupt injection (x86 single-step trap) on the real compiled queue",
-        level_text="lost_update_witness: the property is false of the code (interrupt between load and store of remove()'s read-modify-write loses an accepted request of a characteristic sharing the byte). no_loss_if_atomic_*: with mutual exclusion both sequential orders keep an accepted request (all reachable states). The harness replays every instruction boundary of the real dequeue with the real producer call as interrupt and finds the same outcome sets as the model, including the loss.",
-        level_note="partial: atomicity of the target's byte RMW is outside the model; on the host the -O0 build is used so that access granularity = instruction granularity; the second-core case is covered by the witness (interrupt schedules are a subset) and a reported-only 2-thread stress run; RMW-atomic granularity (finer than critical sections) is enumerated on the model only (extra.model_atomic_rmw_outcomes_with_loss), not proved.",
+        level_text="lost_update_witness: the property is false of the code (interrupt between load and store of remove()'s read-modify-write loses an accepted request of a characteristic sharing the byte). no_loss_if_atomic_*: with mutual exclusion both sequential orders keep an accepted request (all reachable states). fine_linearizable / fine_no_loss: if only the byte read-modify-writes of add/remove are atomic, then for EVERY interleaving at memory-access granularity (producer = load + RMW, consumer = loads + RMW; all k1 <= k2, every reachable state, every partition) the outcome is that of the set specification in one of the two sequential orders, except that the producer may answer false instead of true (stale_result_witness: its load saw the request the consumer then removed; nothing is lost, benign) - no request is lost. The harness replays every instruction boundary of the real dequeue with the real producer call as interrupt and finds the same outcome sets as the model, including the loss.",
+        level_note="partial: atomicity of the target's byte RMW is outside the model; on the host the -O0 build is used so that access granularity = instruction granularity; the second-core case is covered by the witness (interrupt schedules are a subset) and a reported-only 2-thread stress run; the RMW-atomic granularity is proved on the Fine.lean model (fine_linearizable), whose diagonal k1 = k2 is compared in every run with the interrupt model (atomic := true) and whose schedules are all enumerated on the sessions' states (extra.model_fine_granularity_all_schedules); the real code has no atomic RMW, so that model is not compared with the code beyond the shared sequential functions.",
         design_ref="§5 C13",
         trusted=["x86-64 trap flag single stepping delivers SIGTRAP after every instruction of the traced call"],
     ),
